@@ -138,6 +138,20 @@ def immerse(spec, rng):
     return spec
 
 
+def reorder_fields(spec, rng):
+    """list the field points in another order (largest first, or shuffled): the maximum field is a property of the set"""
+    f = list(spec['fields'])
+    if len(f) > 1:
+        if rng.random() < 0.5:
+            f.reverse()
+        else:
+            rng.shuffle(f)
+        if f == spec['fields']:
+            f.reverse()
+    spec['fields'] = f
+    return spec
+
+
 def simple_spec(rng, n=None):
     """axially symmetric refracting lens of planes/spheres/conics with ideal or catalogue media"""
     return gen_spec(rng, nsurf=n, allow=['plane', 'standard', 'conic'], mirrors=False, decenter=False)
@@ -342,6 +356,12 @@ def corpus():
         {'type': 'even_asphere', 'radius': 40.0, 'conic': 0.0, 'coefficients': [4e-5, 6e-8], 'thickness': 6.0,
          'material': ['ideal', 1.6, 0.0], 'is_stop': True},
         {'type': 'even_asphere', 'radius': -70.0, 'conic': 0.0, 'coefficients': [-3e-5], 'thickness': 50.0, 'material': 'air'}]))
+    # one frame component at a time: tilt about y only, tilt about x only, decentre only
+    out.append(dict(base, name='single-tilts', surfaces=[
+        {'type': 'standard', 'radius': 60.0, 'thickness': 5.0, 'material': ['ideal', 1.6, 0.0], 'is_stop': True, 'ry': 0.06},
+        {'type': 'standard', 'radius': -80.0, 'thickness': 6.0, 'material': 'air', 'rx': -0.05},
+        {'type': 'standard', 'radius': 90.0, 'conic': -0.7, 'thickness': 4.0, 'material': ['glass', 'N-BK7', 'schott'], 'dx': 0.8},
+        {'type': 'even_asphere', 'radius': -70.0, 'conic': 0.0, 'coefficients': [1e-5], 'thickness': 40.0, 'material': 'air', 'ry': -0.04}]))
     # thin fast bi-convex lens whose faces cross at h ~ 4.4 inside the beam (negative edge thickness): the outer rays
     # have left the second quadric behind them - no intersection, must be reported non-finite
     out.append(dict(base, name='crossing-faces', aperture=['EPD', 12.0], surfaces=[
